@@ -533,7 +533,10 @@ fn run_batch(cfg: &Value) -> Value {
             }
             let v0: u64 = mem.info["values"][0]["v"].as_str().unwrap().parse().unwrap();
             let off = v0.wrapping_sub(mem.statement.minimum_value_promises[0].unwrap_or(0));
-            opened.push(match refimpl::open_final_masks_1bit(&transcripts[i], &mem.statement, &proofs[i], off & 1) {
+            let vals_all: Vec<u64> = mem.info["values"].as_array().unwrap().iter().map(|v| v["v"].as_str().unwrap().parse::<u64>().unwrap()).collect();
+            opened.push(match refimpl::open_final_masks_1bit(&transcripts[i], &mem.statement, &proofs[i], off & 1)
+                .or_else(|| refimpl::open_final_masks_seeded(&transcripts[i], &mem.statement, &vals_all, &mem.blindings, &proofs[i]))
+            {
                 Some((r, s)) => json!([env::scalar_id(&r), env::scalar_id(&s)]),
                 None => Value::Null,
             });
